@@ -300,7 +300,7 @@ class LibModel:
 
     def dict_copy(self, eng, st, recv, args, kwargs, node):
         st = st.clone()
-        return [(st, eng.new_dict(st, st.dicts[recv.ref]))]
+        return [(st, eng.new_dict(st, st.dicts[recv.ref], own=True))]
 
     def dict_get(self, eng, st, recv, args, kwargs, node):
         k = eng.as_int(args[0])
@@ -324,13 +324,13 @@ class LibModel:
         (o,) = args
         if isinstance(o, D):
             st = st.clone()
-            return [(st, eng.new_dict(st, st.dicts[o.ref]))]
+            return [(st, eng.new_dict(st, st.dicts[o.ref], own=True))]
         raise OutOfSubset(f"copy({type(o).__name__})", node)
 
     def f_dict(self, eng, st, args, kwargs, node):
         if not args:
             st = st.clone()
-            return [(st, eng.new_dict(st))]
+            return [(st, eng.new_dict(st, own=True))]
         return self.f_copy(eng, st, args, kwargs, node)
 
     def f_list(self, eng, st, args, kwargs, node):
@@ -537,7 +537,7 @@ class LibModel:
                     for k, v in pairs:
                         m = m.store(eng.as_int(k), v.t)
                     s3 = s3.clone()
-                    outs.append((s3, eng.new_dict(s3, m)))
+                    outs.append((s3, eng.new_dict(s3, m, own=True)))
                 else:
                     outs.append((s3, Obj('pymap', {'items': pairs})))
         return outs
